@@ -26,6 +26,12 @@ CLAIMED = {
  "C17": ("exploration", "stratified enumeration of boundary timestamps x every directive x flag x width + proptest random timestamps/formats against an independent calendar and reference formatter; round-trip, ordering and parser differentials",
          "Reference strftime built on an independent civil-from-days calendar (cross-validated against Python datetime for every day of years 1..9999) compared with the date filter on a stratified slice (quick) / dense slice (thorough) of the timestamp x format grid; print->parse->serde round trips, chronological ordering across offsets, all accepted parser syntaxes.",
          "Flag combinations the directive documentation does not pin are exercised for crashes only; years 1..9999; now/today never generated.", "4.17"),
+ "C06": ("exploration", "bounded-exhaustive operator x value-pair table, truthiness table, if/elsif and case/when arm enumerations, and/or pattern enumeration + proptest nested conditionals against a reference interpreter",
+         "Every operator x ordered pair of a 30-value pool (literal and variable operands, if and unless), bare truthiness of every value and of undefined names, all if/elsif chains <=4 arms x truth assignments, case/when with overlapping comma/or lists, every and/or pattern <=4 atoms; random nesting. Oracle: reference interpreter with an independent comparison core; cross-kind cells defer to the value model as the statement says.",
+         "Cells the statement leaves open (undefined names in comparisons, contains on nil/numbers, bare empty/blank) are not compared.", "4.6"),
+ "C07": ("exploration", "bounded-exhaustive path enumeration over tagged nested data + literal sweeps + proptest guided walks against a reference lookup",
+         "All paths of <=3 steps from 9 bases over a 43-step pool (dot/bracket keys, every literal index -7..6, indices through variables and nested paths, special names, colliding own keys) over data whose leaves are distinct tagged strings; integer literals at the 64-bit boundaries and a log sweep, decimals, strings in both quote styles. Oracle: reference step-by-step lookup: Ok(value) or Err.",
+         "Printing objects, integer-looking strings as array indices and .size of non-ASCII strings are not compared.", "4.7"),
 }
 
 NOT_YET = {
